@@ -1,6 +1,7 @@
 import UvModel.Lemmas.LoopTrace
 import UvModel.Lemmas.LoopRunInv
 import UvModel.Lemmas.LoopClose4
+import UvModel.Lemmas.LoopReqs4
 /-!
   C02 — close protocol, over the LoopModel.  `tr s = (s.trace, s.ncbTotal)`: the event trace
   (callbacks, polls, op results) and the number of callbacks run so far.
@@ -299,5 +300,57 @@ example :
     s0.pending = [] ∧
     ((runClosing (fun _ _ _ => []) (runPending (fun _ _ _ => []) .pending s0)).trace.reverse.filterMap (fun e => match e with
         | .cb _ k i a _ => some (k, i, a) | _ => none)) = [(CbKind.connect, 0, -125), (CbKind.close, 2, 4)] := by decide
+
+/-! ### a request's callback is delivered at most once over the whole trace -/
+/-- `req_cb_owed_xor_done`: for every script, poller behaviour and main program, and every request id `r`
+    (`Reqs.reqCbs r t` = number of `work` / `udpSend` / `connect` callback events for `r` in the trace; ids come from
+    the single counter `nextReq`): callbacks delivered so far + records still owed ≤ 1 — a request that is still
+    owed has had no callback, one whose callback ran is no longer owed and never comes back — and no callback
+    exists for an id that has not been handed out.  Proof (`Lemmas/LoopReqs4.lean`): every completion site
+    (`uv__udp_run_completed`, `uv__stream_io`, `uv__stream_destroy`, `uv__work_done`) takes `r` out of a queue
+    slot, so by the partition invariant of C01 (`Reqs.RInv`) `r` is owed exactly once, hence has had no callback;
+    the record is dropped right before the callback event; registration uses the fresh id `nextReq`. -/
+theorem req_cb_owed_xor_done (sc : Script) (fuel clock0 : Nat) (metrics : Bool) (oracle : List PollRes) (prog : List MainOp) :
+    let s := runMain sc fuel (initLoop clock0 metrics oracle) prog
+    ∀ r, Reqs.reqCbs r s.trace + (s.reqs.filter (·.id == r)).length ≤ 1 ∧
+      (s.nextReq ≤ r → Reqs.reqCbs r s.trace = 0) := by
+  intro s r
+  have hj : Reqs.J none s := Reqs.runMain_js sc fuel prog _ (Reqs.initLoop_j clock0 metrics oracle)
+  have h1 := hj.2.1 r
+  simp only [Reqs.idc, List.countP_eq_length_filter] at h1
+  exact ⟨h1, hj.2.2 r⟩
+
+/-- `req_cb_at_most_once`: no request gets its callback twice -/
+theorem req_cb_at_most_once (sc : Script) (fuel clock0 : Nat) (metrics : Bool) (oracle : List PollRes) (prog : List MainOp) :
+    let s := runMain sc fuel (initLoop clock0 metrics oracle) prog
+    ∀ r, Reqs.reqCbs r s.trace ≤ 1 := by
+  intro s r
+  have : Reqs.reqCbs r s.trace + (s.reqs.filter (·.id == r)).length ≤ 1 :=
+    (req_cb_owed_xor_done sc fuel clock0 metrics oracle prog r).1
+  omega
+
+/-- the same invariant holds after every API call, handle/close callback and loop iteration, wherever issued -/
+theorem req_cb_in_callbacks (s : State) (hj : Reqs.J none s) :
+    (∀ o, Reqs.J none (stepOp s o)) ∧ (∀ sc mode, Reqs.J none (iteration sc mode s)) ∧
+    (∀ sc, Reqs.J none (runClosing sc s)) ∧
+    ∀ r, Reqs.reqCbs r s.trace + (s.reqs.filter (·.id == r)).length ≤ 1 := by
+  refine ⟨fun o => Reqs.stepOp_js s o hj, fun sc mode => Reqs.iteration_js sc mode s hj,
+    fun sc => Reqs.runClosing_js sc s hj, ?_⟩
+  intro r
+  have h1 := hj.2.1 r
+  simpa only [Reqs.idc, List.countP_eq_length_filter] using h1
+
+/-- non-vacuity: two work items and a udp send; after one `uv_run(UV_RUN_NOWAIT)` (both work items finished on
+    the pool thread) each request has had exactly one callback, none is owed, and the next id has had none -/
+example :
+    let s := runMain (fun _ _ _ => []) 5 (initLoop 1000 false [{ clock := 1000, done := 2, batch := [(.async, 1)] }])
+      [MainOp.op (.init .udp), MainOp.op .work, MainOp.op .work, MainOp.op (.udpSend 2), MainOp.run .nowait]
+    (s.reqs, s.nextReq, Reqs.reqCbs 0 s.trace, Reqs.reqCbs 1 s.trace, Reqs.reqCbs 2 s.trace, Reqs.reqCbs 3 s.trace,
+      s.ncbTotal) = ([], 3, 1, 1, 1, 0, 3) := by decide
+/-- … and before the run all three are owed and none has had its callback -/
+example :
+    let s := runMain (fun _ _ _ => []) 5 (initLoop 1000 false [])
+      [MainOp.op (.init .udp), MainOp.op .work, MainOp.op .work, MainOp.op (.udpSend 2)]
+    (s.reqs.map (·.id), Reqs.reqCbs 0 s.trace, Reqs.reqCbs 1 s.trace, Reqs.reqCbs 2 s.trace) = ([0, 1, 2], 0, 0, 0) := by decide
 
 end UvModel.Props.C02
